@@ -80,7 +80,9 @@ def indexed_start():
     the *removing* attribute changes are in the menu from the first step."""
     return P(A('va', [M('Item', [F('a', 'Char', max_length=20, unique=True),
                                  F('b', 'Int', db_index=True),
-                                 F('c', 'Int', null=True)])]))
+                                 F('c', 'Int', null=True),
+                                 F('d', 'Decimal', max_digits=5,
+                                   decimal_places=2, null=True)])]))
 
 
 # ------------------------------------------------------------ observations
